@@ -87,18 +87,38 @@ def oracle(case, rec, an, streams, mb):
         for (ti, t) in inputs:
             feed_out[name_to_out[t["name"]]] = feed_src[ti]
 
+        NP = {"int8": np.int8, "uint8": np.uint8, "int16": np.int16, "int32": np.int32, "int64": np.int64}
+
+        # the tensor arena is ONE memory image for the whole inference: network inputs and results of CPU operators are written where the
+        # file places them, CPU operators read their operands back from it, Ethos-U operators work on it directly, and the network outputs are
+        # read from it at the end - so a buffer that is overwritten while a later operator still needs it shows as a wrong result
+        def arena_store(ti, val):
+            off = outfile.arena_offset(an, ti)
+            t = osg["tensors"][ti]
+            if off is None or off < 0 or t["dtype"] not in NP or outfile.tensor_data_present(an, ti):
+                return
+            raw = np.asarray(val).astype(NP[t["dtype"]]).tobytes()
+            if off + len(raw) <= len(mem.m[1]):
+                mem.m[1][off:off + len(raw)] = np.frombuffer(raw, dtype=np.uint8)
+
+        def arena_load(ti, val):
+            off = outfile.arena_offset(an, ti)
+            t = osg["tensors"][ti]
+            if off is None or off < 0 or t["dtype"] not in NP or val is None or outfile.tensor_data_present(an, ti):
+                return val
+            nb = outfile.tensor_bytes(t)
+            if off + nb > len(mem.m[1]) or nb != np.asarray(val).size * np.dtype(NP[t["dtype"]]).itemsize:
+                return val
+            return np.frombuffer(mem.m[1][off:off + nb].tobytes(), dtype=NP[t["dtype"]]).reshape(np.asarray(val).shape).astype(np.int64)
+
         def npu_exec(oi, op, vals):
             n, s = by_op[oi]
             if s.problems or s.side is None or not netrun.sideband_matches(s):
                 raise X.Unsupported("stream not matched with the side band")
-            # place the operator's inputs in the arena where the file says they are
             for ti in n["ifms"]:
                 off = outfile.arena_offset(an, ti)
-                t = osg["tensors"][ti]
                 if off is None or ti not in vals:
                     raise X.Unsupported("custom operator input without arena offset / value")
-                raw = np.asarray(vals[ti]).astype({"int8": np.int8, "uint8": np.uint8, "int16": np.int16, "int32": np.int32}[t["dtype"]]).tobytes()
-                mem.m[1][off:off + len(raw)] = np.frombuffer(raw, dtype=np.uint8)
             cmds = [dict(quant=npu_quant(o)) if hasattr(o, "ifm") else None for o in s.side["npu_ops"]]
             X.run_stream(mem, s.ops, cmds, acc)
             stats["npu_ops_executed"] += len(s.ops)
@@ -112,7 +132,8 @@ def oracle(case, rec, an, streams, mb):
             return res
 
         try:
-            got = K.evaluate(out, feed_out, npu_executor=npu_exec)
+            got = K.evaluate(out, feed_out, npu_executor=npu_exec, store=arena_store, load=arena_load)
+            got = {ti: arena_load(ti, v) for ti, v in got.items()}
         except X.StreamDefect as e:
             viol.append(("weight-stream-mismatch", str(e)))
             break
